@@ -156,7 +156,14 @@ def replay(path):
     rec = d["replay"]["record"]
     mode = d["replay"]["mode"]
     if mode == "large":
-        fails, _ = core.validate_records("VpscBig", "VpscBig.cfg", [rec])
+        # rebuild the instance from the record and re-run the real solver on it
+        def big(l):
+            return sum(d * 10000 ** i for i, d in enumerate(l))
+        inst = {"des": ["%d/1000000" % d for d in rec["des6"]], "wt": ["%d/100" % big(w) for w in rec["wt100"]],
+                "sc": ["%d/2" % s for s in rec["sc"]],
+                "cons": [[a - 1, b - 1, "%d/200000" % g] for a, b, g in zip(rec["cl"], rec["cr"], rec["cg5"])]}
+        out = core.run_driver("d_vpsc.py", stdin_obj={"seed": 0, "count": 0, "mode": "large", "large_instances": [inst]})
+        fails, _ = core.validate_records("VpscBig", "VpscBig.cfg", out["records"])
     else:
         # re-run the real solver on the instance, then validate
         inst = {"des": rec["des"], "wt": rec["wt"], "sc": rec["sc"],
